@@ -255,6 +255,8 @@ package entities
 //@   ensures  keep: forall j in [0, old(d.fieldCount)): d.orderedElementList[j] == old(d.orderedElementList[j])
 //@   ensures  lenl: len(d.orderedElementList) == (old(len(d.orderedElementList)) <= old(d.fieldCount) ? old(len(d.orderedElementList)) + 1 : old(len(d.orderedElementList)))
 //@   ensures  len:  d.len == old(d.len) + (d.isDecoding ? 0 : wireLen(element))
+//@   ensures  listarr: arr(d.orderedElementList) == old(arr(d.orderedElementList)) || fresh(d.orderedElementList)
+//@   ensures  same: d.templateID == old(d.templateID) && d.isDecoding == old(d.isDecoding) && d.buffer == old(d.buffer)
 //@   ensures  inv:  recInv(d)
 //@   modifies d.len, d.fieldCount, d.orderedElementList, d.orderedElementList[*]
 
@@ -331,7 +333,9 @@ package entities
 //@   ensures  ok:   err == nil ==> t.index == old(t.index) + 1 && t.orderedElementList[old(t.index)] == element && tplInv(t, t.orderedElementList, t.index)
 //@   ensures  keep: forall j in [0, old(t.index)): t.orderedElementList[j] == old(t.orderedElementList[j])
 //@   ensures  fail: err != nil ==> t.index == old(t.index) && tplInv(t, t.orderedElementList, t.index)
-//@   ensures  same: t.orderedElementList == old(t.orderedElementList)
+//@   ensures  same: t.orderedElementList == old(t.orderedElementList) && t.templateID == old(t.templateID) && t.fieldCount == old(t.fieldCount)
+//@   ensures  bufarr: arr(t.buffer) == old(arr(t.buffer)) || fresh(t.buffer)
+//@   ensures  hdr: be16(t.buffer, 0) == old(be16(t.buffer, 0)) && be16(t.buffer, 2) == old(be16(t.buffer, 2))
 //@   modifies t.buffer, t.minDataRecLength, t.buffer[*], t.index, t.orderedElementList[*]
 
 // ---------------------------------------------------------------------------
@@ -368,7 +372,7 @@ package entities
 //@ lemma range_split(n int): (forall i in [0, n): absP(i)) && absP(n) ==> (forall i in [0, n+1): absP(i))
 //@
 //@ func NewSet(isDecoding) (r)
-//@   ensures r:   r != nil && fresh(r) && r.isDecoding == isDecoding && len(r.records) == 0 && r.setType == Template
+//@   ensures r:   r != nil && fresh(r) && r.isDecoding == isDecoding && len(r.records) == 0 && r.setType == Template && fresh(r.records)
 //@   ensures len: r.length == (isDecoding ? 0 : 4)
 //@   ensures hdr: isDecoding ? isnil(r.headerBuffer) : (len(r.headerBuffer) == 4 && fresh(r.headerBuffer) && (forall q in [0, 4): r.headerBuffer[q] == 0))
 //@   ensures inv: setInv(r)
@@ -409,6 +413,8 @@ package entities
 //@   ensures  ok:  (err == nil) <==> (old(s.setType) == Data || old(s.setType) == Template)
 //@   ensures  added: err == nil ==> len(s.records) == old(len(s.records)) + 1 && addedView(s.records[old(len(s.records))], elements, templateID, s.setType)
 //@   ensures  keep: forall i in [0, old(len(s.records))): s.records[i] == old(s.records[i])
+//@   ensures  recarr: arr(s.records) == old(arr(s.records)) || fresh(s.records)
+//@   ensures  mode: s.isDecoding == old(s.isDecoding) && s.setType == old(s.setType)
 //@   ensures  errsame: err != nil ==> s.records == old(s.records) && s.length == old(s.length)
 //@   ensures  len: err == nil ==> s.length == old(s.length) + recLen(s.records[old(len(s.records))])
 //@   ensures  oldrecs: forall i in [0, old(len(s.records))): recSafe(s.records[i])
@@ -425,6 +431,8 @@ package entities
 //@   ensures  errty:  old(s.setType) != Data && old(s.setType) != Template ==> err != nil
 //@   ensures  added: err == nil ==> len(s.records) == old(len(s.records)) + 1 && addedView(s.records[old(len(s.records))], elements, templateID, s.setType)
 //@   ensures  keep: forall i in [0, old(len(s.records))): s.records[i] == old(s.records[i])
+//@   ensures  recarr: arr(s.records) == old(arr(s.records)) || fresh(s.records)
+//@   ensures  mode: s.isDecoding == old(s.isDecoding) && s.setType == old(s.setType)
 //@   ensures  errsame: err != nil ==> s.records == old(s.records) && s.length == old(s.length)
 //@   ensures  len: err == nil ==> s.length == old(s.length) + recLen(s.records[old(len(s.records))])
 //@   ensures  oldrecs: forall i in [0, old(len(s.records))): recSafe(s.records[i])
@@ -454,6 +462,8 @@ package entities
 //@   ensures  errty:  old(s.setType) != Data && old(s.setType) != Template ==> err != nil
 //@   ensures  added: err == nil ==> len(s.records) == old(len(s.records)) + 1 && addedView(s.records[old(len(s.records))], elements, templateID, s.setType)
 //@   ensures  keep: forall i in [0, old(len(s.records))): s.records[i] == old(s.records[i])
+//@   ensures  recarr: arr(s.records) == old(arr(s.records)) || fresh(s.records)
+//@   ensures  mode: s.isDecoding == old(s.isDecoding) && s.setType == old(s.setType)
 //@   ensures  errsame: err != nil ==> s.records == old(s.records) && s.length == old(s.length)
 //@   ensures  len: err == nil ==> s.length == old(s.length) + recLen(s.records[old(len(s.records))])
 //@   ensures  oldrecs: forall i in [0, old(len(s.records))): recSafe(s.records[i])
